@@ -30,6 +30,7 @@ type ProgCase struct {
 	WireVals []*wire.Value
 	// unmapped keys of the first match field of the root
 	UnmappedHex []string
+	RegSeqs     []regSeq // C06: checksum-registry operation sequences (regseq.go)
 	Cells       map[string]*CodecCell
 }
 
@@ -102,6 +103,9 @@ func buildCases(ctx *core.Ctx, progs []*dsl.Program, maxDev int) []*ProgCase {
 			pc.Encs = append(pc.Encs, enc)
 			pc.WireVals = append(pc.WireVals, r.WireValue(msg, enc))
 		}
+		if regSequencesOn {
+			buildRegSeqs(pc, regDepth(ctx))
+		}
 		// unmapped keys: the baseline message with the key member replaced
 		if mf, key, vals := r.UnmappedKeys(); mf != nil && len(pc.Msgs) > 0 {
 			base := pc.Msgs[0]
@@ -161,6 +165,7 @@ func driverInput(pc *ProgCase) []string {
 	for k, h := range pc.UnmappedHex {
 		in = append(in, fmt.Sprintf("DEC u%d %s %s", k, r.Root.Name, h))
 	}
+	in = append(in, regInput(pc)...)
 	return in
 }
 
@@ -266,6 +271,27 @@ func runCodec(ctx *core.Ctx, cases []*ProgCase, langs []string) []string {
 			if cc.T != nil && cc.T.Stage != "" && strings.Contains(cc.T.BuildLog, "timeout after") {
 				cc.T.Stage = "timeout"
 			}
+		}
+	}
+	// vacuity guard: a harness runtime or driver that does not build must stop the check, not turn a whole
+	// target silently unobservable
+	for _, l := range langs {
+		n, ok := 0, 0
+		first := ""
+		for _, pc := range cases {
+			if cc := pc.Cells[l]; cc != nil && cc.T != nil {
+				n++
+				if cc.T.Stage == "" {
+					ok++
+				} else if strings.HasPrefix(cc.T.BuildLog, "harness:") {
+					core.HarnessError("target %s: %s", l, core.Trunc(cc.T.BuildLog, 600))
+				} else if first == "" {
+					first = cc.T.Stage + ": " + core.Trunc(cc.T.BuildLog, 300)
+				}
+			}
+		}
+		if n >= 5 && ok == 0 {
+			core.HarnessError("target %s: none of %d cells could be built and driven (first: %s)", l, n, first)
 		}
 	}
 	out := append([]string(nil), langs...)
